@@ -58,7 +58,7 @@ InitNet == [r \in Routers |->
                  H(rt, A) == IF A = {} THEN rt ELSE LET h == CHOOSE y \in A : TRUE IN H(Hello(rt, h), A \ {h})
              IN H([Router0 EXCEPT !.tbl[r] = NewIface(r)], hs)]      \* add_iface_routes: the router's own address
 Init == /\ net = InitNet
-        /\ per \in [Routers -> Phases]
+        /\ per = [r \in Routers |-> S + 1]          \* not started yet: Boot chooses when each router's first update is due
         /\ chan = [p \in Routers \X Routers |-> <<>>]
         /\ up = Links
         /\ last = [a |-> "Init", args |-> [x |-> 0], exp |-> Obs(InitNet, chan, NoSent)]
@@ -67,6 +67,15 @@ Init == /\ net = InitNet
 Log(a, args, exp) ==
   /\ last' = [a |-> a, args |-> args, exp |-> exp]
   /\ hist' = IF D = 0 THEN hist ELSE Append(hist, [a |-> a, args |-> args, exp |-> exp])
+
+\* the routers come up: LinuxRIPRouter._handle_core_UpEvent starts the recurring SEND_TIMER; f[r] = when router
+\* r's first full update is due
+Booted == \A r \in Routers : per[r] <= S
+Boot(f) ==
+  /\ ~Booted
+  /\ per' = f
+  /\ UNCHANGED <<net, chan, up>>
+  /\ Log("Boot", [per |-> f], Obs(net, chan, NoSent))
 
 \* send_updates(force) of router r: one get_responses per interface; every live neighbour on the interface
 \* gets the datagram (nothing is sent when there is nothing to say)
@@ -109,21 +118,22 @@ Garbage(r, k) ==
   /\ UNCHANGED <<per, chan, up>>
   /\ Log("Garbage", [r |-> r, k |-> k], Obs(net', chan, NoSent))
 LinkDown(l) ==
-  /\ l \in up /\ Cardinality(Links \ up) < MaxFails
+  /\ Booted /\ l \in up /\ Cardinality(Links \ up) < MaxFails
   /\ up' = up \ {l}
   /\ chan' = [p \in Routers \X Routers |-> IF {p[1], p[2]} = l THEN <<>> ELSE chan[p]]
   /\ UNCHANGED <<net, per>>
   /\ Log("LinkDown", [l |-> SetToSeq(l)], Obs(net, chan', NoSent))
 Quiet == \A p \in Routers \X Routers : chan[p] = <<>>
 Tick(d) ==
-  /\ Quiet
+  /\ Booted /\ Quiet
   /\ \A r \in Routers : CanAdvance(net[r], d) /\ per[r] >= d
   /\ net' = [r \in Routers |-> Advance(net[r], d)]
   /\ per' = [r \in Routers |-> per[r] - d]
   /\ UNCHANGED <<chan, up>>
   /\ Log("Advance", [d |-> d], Obs(net', chan, NoSent))
 
-Next == \/ \E r \in Routers : Send(r) \/ Fire(r)
+Next == \/ \E f \in [Routers -> Phases] : Boot(f)
+        \/ \E r \in Routers : Send(r) \/ Fire(r)
         \/ \E s, r \in Routers : Deliver(s, r)
         \/ \E r \in Routers, k \in Keys : Timeout(r, k) \/ Garbage(r, k)
         \/ \E l \in Links : LinkDown(l)
@@ -132,7 +142,7 @@ Spec == Init /\ [][Next]_vars /\ WF_vars(Next)
 
 ----------------------------------------------------------------------------
 TypeOK == /\ \A r \in Routers : RouterOK(net[r])
-          /\ per \in [Routers -> 0..S]
+          /\ per \in [Routers -> 0..S + 1]
 
 \* hop counts in a topology L (set of 2-sets over Routers); a stub hangs off its router by one more hop
 RECURSIVE Reach(_, _, _)
@@ -161,6 +171,21 @@ Convergence == <>[]Converged
 \* vacuity witnesses (expected to be VIOLATED: they show that the model really counts to infinity / reroutes)
 NeverCounts == \A r \in Routers, h \in StubHosts : Metric(r, h) \notin 6..15
 NeverConverged == ~Converged
+
+\* ---- the counting-to-infinity scenario, for export (EXN_count.cfg).  SlowLink keeps only the behaviours in which
+\* the link SlowFrom -> SlowTo is the slowest thing in the network: its datagrams are delivered when nothing else
+\* can happen at that instant.  These are behaviours of the specification like any other; among them the ones in
+\* which a router still believes an old advertisement while the bad news is on its way are easy to find.
+CONSTANTS SlowFrom, SlowTo
+SlowLink == (last'.a = "Deliver" /\ last'.args.s = SlowFrom /\ last'.args.r = SlowTo) =>
+              /\ \A p \in Routers \X Routers : p # <<SlowFrom, SlowTo>> => chan[p] = <<>>
+              /\ \A r \in Routers : per[r] # 0 /\ ~FireDue(net[r])
+\* a behaviour is printed when its last step takes the last finite metric >= 15 for a stub host away: the whole
+\* count 2, 3, ... 15, 16 is in it
+Finite(n, h) == {r \in Routers : Present(n[r].tbl[h]) /\ n[r].tbl[h].m < INF}
+ExportCountT == (\E h \in StubHosts : /\ \E r \in Finite(net, h) : net[r].tbl[h].m = 15
+                                      /\ Finite(net', h) = {})
+                  => PrintT(<<"T", ToJson(hist')>>)
 
 \* ---- export for the replay harness
 Export  == (Len(hist) = D) => PrintT(<<"H", ToJson(hist)>>)
